@@ -14,13 +14,15 @@ var optionSets = []flatOpts{
 }
 
 // flattenCase builds the child request for one (bundle, option set).
-func flattenCase(g *Gen, o flatOpts, plus bool, repeats, permutes int, faults bool) any {
+func flattenCase(g *Gen, o flatOpts, plus bool, repeats, permutes int, faults bool, index int) any {
 	anon := !o.Expand
 	// KeepNames applies to single-document bundles: decided first, so that half of them use plain names only
 	keep := !o.Expand && g.p(0.2)
 	bo := BundleOpts{Plus: plus, AnonOK: anon, SharedOK: anon && !o.RemoveUnused, MaxAux: 3}
-	if !keep && !plus && g.p(0.3) {
-		bo.Scenario = g.pick([]string{"collide-pointer", "collide-many", "collide-nested", "unused-chain", "expand-via-response"})
+	scenarios := []string{"collide-pointer", "collide-many", "collide-nested", "unused-chain", "expand-via-response"}
+	if !keep && !plus && index%3 == 0 {
+		// every third bundle carries a planted interplay shape, taken in turn
+		bo.Scenario = scenarios[(index/3)%len(scenarios)]
 		if !anon && bo.Scenario == "collide-pointer" {
 			bo.Scenario = "collide-many"
 		}
